@@ -138,7 +138,8 @@ def dataset_section(rep):
     m = contexts.symmetry_ctx()
     FNQ = REL + ":SymmetryAnalyzer.get_symmetry_dataset"
     f = m.get("SymmetryAnalyzer.get_symmetry_dataset")
-    T = {k: Opaque(k) for k in ("cell", "scaled", "numbers", "tol")}
+    T = {k: Opaque(k) for k in ("scaled", "numbers", "tol")}
+    T["cell"] = sym_cell("c")  # symbolic: any handedness, any shape - the description must not depend on it
 
     class Sys:
         def get_cell(self):
@@ -183,27 +184,36 @@ def dataset_section(rep):
             ex = Explorer(FNQ)
             box = {}
 
-            def thunk(st):
-                self_ = contexts.make_self(m, "SymmetryAnalyzer", {"_symmetry_dataset": None, "_analyzed_system": Sys(), "_original_system": OtherSys(),
-                                                                    "system": OtherSys(), "symmetry_tol": T["tol"]})
-                it = Interp(st)
-                r = it.run_func(f, [self_], {})
-                r2 = it.run_func(f, [self_], {})
-                box.update(r=r, r2=r2, self=self_)
-                return r
-
-            oc = ex.explore(thunk)
             bad = []
-            if len(calls) != 1:
-                bad.append("spglib asked %d times for two calls of the getter" % len(calls))
-            else:
+
+            def check_calls():
+                if len(calls) != 1:
+                    bad.append("spglib asked %d times for two calls of the getter" % len(calls))
+                    return
                 fn, a, k = calls[0]
                 if fn is not SPG:
                     bad.append("not spglib.get_symmetry_dataset")
                 if not (len(a) == 2 and not k and isinstance(a[0], tuple) and len(a[0]) == 3 and a[0][0] is T["cell"] and a[0][1] is T["scaled"] and a[0][2] is T["numbers"]):
-                    bad.append("the structure described to spglib is not (cell, scaled positions, atomic numbers) of the analysed system")
+                    bad.append("the structure described to spglib is not (cell, scaled positions, atomic numbers) of the analysed system as it is")
                 elif a[1] is not T["tol"]:
                     bad.append("tolerance passed to spglib is not the analyzer's symmetry_tol")
+
+            def thunk(st):
+                calls.clear()
+                self_ = contexts.make_self(m, "SymmetryAnalyzer", {"_symmetry_dataset": None, "_analyzed_system": Sys(), "_original_system": OtherSys(),
+                                                                    "system": OtherSys(), "symmetry_tol": T["tol"]})
+                it = Interp(st)
+                try:
+                    r = it.run_func(f, [self_], {})
+                    r2 = it.run_func(f, [self_], {})
+                    box.update(r=r, r2=r2, self=self_)
+                finally:
+                    check_calls()
+                return r
+
+            oc = ex.explore(thunk)
+            if len(oc) != 1:
+                bad.append("%d paths: the description depends on the shape of the cell" % len(oc))
             if mode == "dataset":
                 if not (len(oc) == 1 and oc[0][0] == "return" and box.get("r") is DSobj and box.get("r2") is DSobj):
                     bad.append("does not return (and cache) the dataset")
